@@ -149,6 +149,10 @@ func genC14(g *Gen) error {
 	if err := c14IxDefs(g, t); err != nil {
 		return err
 	}
+	// shared-storage retention decided by the catalogue (c14sh.go)
+	if err := c14SharedDefs(g, t); err != nil {
+		return err
+	}
 	g.P("end OG.C14\n")
 
 	// --- shapes the hand-written model transcribes ------------------------------------
@@ -214,6 +218,9 @@ func genC14(g *Gen) error {
 	})
 	g.StrList("durationInfos_assign", durAssign)
 	if err := c14IxShapes(g); err != nil {
+		return err
+	}
+	if err := c14SharedShapes(g); err != nil {
 		return err
 	}
 	g.Footer()
